@@ -17,7 +17,7 @@ CORE_FLAGS := $(CXXFLAGS_COMMON) -I$(V)/sim
 SDK_SRCS := $(shell find $(REPO)/sdk/src -name '*.cc' ! -name '*windows*' | LC_ALL=C sort)
 SDK_OBJS := $(patsubst $(REPO)/%.cc,$(B)/%.o,$(SDK_SRCS))
 
-CORE_SRCS := $(V)/sim/vsim_core.cc $(V)/sim/runner.cc
+CORE_SRCS := $(V)/sim/vsim_core.cc $(V)/sim/runner.cc $(V)/sim/alloc.cc
 CORE_OBJS := $(patsubst $(V)/sim/%.cc,$(B)/core/%.o,$(CORE_SRCS))
 
 ENGINES := queue batch ctx ident span logs metrics async
